@@ -188,8 +188,30 @@ def featuresOfL : List Pat → List String
   | p :: ps => featuresOf p ++ featuresOfL ps
 end
 
-def classOf (bits : Nat) (ast : List Pat) : String :=
-  if wfPats bits false ast then "wf" else "outside-wf"
+mutual
+/-- an MDC formatter with an empty key or an explicitly empty default (input class of the finding
+`C09/mdc-empty-argument`, repaired in round 6) -/
+def hasEmptyMdcArg : Pat → Bool
+  | .mdc _ key dflt _ => key.isEmpty || dflt == some []
+  | .group _ _ body _ => hasEmptyMdcArgL body
+  | _ => false
+def hasEmptyMdcArgL : List Pat → Bool
+  | [] => false
+  | p :: ps => hasEmptyMdcArg p || hasEmptyMdcArgL ps
+end
+
+/-- `wf`; `too-deep` = well-formed but for the nesting limit (parenthesised arguments nested deeper
+than `Profile.maxDepth` = the code's `MAX_DEPTH`): the code answers with an error marker, see
+`wantPrefix`; `outside-wf` otherwise -/
+def classOf (P : Profile) (ast : List Pat) : String :=
+  if wfB P ast then "wf" else if wfPats P.wordBits false ast then "too-deep" else "outside-wf"
+
+/-- what the code is specified to do beyond the nesting limit (`C09_depth_limit`, and C11's "errors
+surface as markers"): the top-level elements before the first one that goes too deep render as
+usual, then `{ERROR: expected '}'}` (the rest of the pattern is swallowed) -/
+def wantPrefix (P : Profile) (ast : List Pat) : List Pat × Bool :=
+  if depthPats ast ≤ P.maxDepth then (ast, false)
+  else (okPrefix P ast, true)
 
 mutual
 /-- (format, zone) requests of all date formatters, any depth -/
@@ -207,7 +229,198 @@ def sameFormatBothZones (ast : List Pat) : Bool :=
   let rs := dateReqsL ast
   rs.any (fun (f, z) => rs.any (fun (f', z') => f = f' && z ≠ z'))
 
+mutual
+/-- the meaning of a pattern outside `DatesOk`: a date formatter whose format chrono rejects (the
+construction-time trial rendering, `Build.dateOk`) renders its error marker — no spec applied, the
+chunk `dateChunkOf` builds is `.error (eInvalidDateFormat fmt)` —, everything else as `denotePat` -/
+def denotePatRej (B : Build) (env : Env) (r : Record) : Pat → List Char
+  | .date long args spec =>
+    if B.dateOk (dateRequest args).1 then denotePat env r (.date long args spec)
+    else errorMarker (eInvalidDateFormat (dateRequest args).1)
+  | .group k _ body spec =>
+    applySpec spec (match k with
+      | .align => denotePatsRej B env r body
+      | .highlight => denotePatsRej B env r body
+      | .debug => if env.debugBuild then denotePatsRej B env r body else []
+      | .release => if env.debugBuild then [] else denotePatsRej B env r body)
+  | p => denotePat env r p
+def denotePatsRej (B : Build) (env : Env) (r : Record) : List Pat → List Char
+  | [] => []
+  | p :: ps => denotePatRej B env r p ++ denotePatsRej B env r ps
+end
+
+/-! ### ITEM 3 families: `threads`, `tz-change`, `nodebug` (begin) -/
+
+/-- environment of one encode of the new families: everything is an input reported per encode -/
+def envFor (name : Option (List Char)) (tid pid : Nat) (mdc : List (List Char × List Char)) (debug : Bool)
+    (dates : List (List Char × Bool × List Char)) : Env where
+  strftimeOk _ := true
+  dateText fmt utc := ((dates.find? (fun d => d.1 = fmt && d.2.1 = utc)).map (·.2.2)).getD []
+  threadName := name
+  threadId := tid
+  pid := pid
+  mdc := mdc
+  debugBuild := debug
+
+/-- the C11 model (parse + compile + encode) in one environment, rendered like the harness renders -/
+def modelOpsIn (env : Env) (r : Record) (pattern : List Char) : String :=
+  match parse C11.driverClass C11.profile pattern with
+  | .ok ps =>
+    match encList env r (compileL (C11.buildFor env) ps) with
+    | .ok o => C11.renderOps false o
+    | _ => "PANIC"
+  | _ => "PANIC"
+
+/-- the statement on one encode: text and style calls are the pattern's meaning in THAT encode's environment -/
+def judgeOpsIn (env : Env) (r : Record) (ast : List Pat) (ops : String) : Option String :=
+  match C11.implText ops, C11.implStyles ops with
+  | some txt, some sty =>
+    if txt ≠ denotePats env r ast then some "text"
+    else if sty ≠ stylesPats env r ast then some "style calls"
+    else none
+  | _, _ => some ("outcome " ++ ops)
+
+def nodebugClash (isNodebug debug : Bool) : Option String :=
+  if isNodebug && debug then
+    some "FAIL:an @nodebug case was executed by a binary with debug assertions;sig=C09/harness-nodebug-not-applied"
+  else if !isNodebug && !debug then
+    some "FAIL:a plain case was executed by a binary without debug assertions;sig=C09/harness-nodebug-not-applied"
+  else none
+
+def familyTags (ast : List Pat) (family : String) (isNodebug : Bool) : List String :=
+  classOf C11.profile ast :: ("depth" ++ toString (min (depthOfL ast) 6)) :: family ::
+    (featuresOfL ast).eraseDups ++ (if isNodebug then ["nodebug"] else [])
+
+/-- per participant: name, tid, the operation streams of its encodes -/
+def decParticipants : Nat → List String → Option (List (Option (List Char) × Nat × List String))
+  | 0, [] => some []
+  | n + 1, nm :: td :: o1 :: o2 :: rest => do
+    let name ← decOpt decStr nm
+    let tid ← decNat td
+    let more ← decParticipants n rest
+    pure ((name, tid, [o1, o2]) :: more)
+  | _, _ => none
+
+/-- `threads` family: one encoder shared by the main thread and k >= 2 simultaneously alive threads -/
+def handleThreads (isNodebug : Bool) (cas obs : List String) : Answer :=
+  match cas with
+  | astField :: rest =>
+    match decAst astField, C11.decCase (rest.take 9), rest.drop 10 with
+    | some ast, some c, [namesF, msgsF, mdcsF] =>
+      if showPats ast ≠ c.pattern then badCase "pattern is not the printed AST" else
+      if !C11.classifiable c.pattern then badCase "character outside the sample table" else
+      match mapM? (decOpt decStr) (decList ',' namesF), mapM? decStr (decList ',' msgsF),
+            mapM? (fun m => mapM? C11.decKV (decList ',' m)) (splitOnChar '|' mdcsF) with
+      | some names, some msgs, some mdcs =>
+        if names.length < 2 || msgs.length ≠ names.length || mdcs.length ≠ names.length then badCase "threads arity" else
+        -- what each participant should show: main first
+        let wanted : List (Option (List Char) × List Char × List (List Char × List Char)) :=
+          (c.thread, c.record.message, c.mdc) :: (names.zip (msgs.zip mdcs))
+        let tags := familyTags ast "threads" isNodebug ++ ["threads" ++ toString wanted.length]
+        match obs.flatMap (splitOnChar ' ') with
+        | "threads" :: d :: p :: "PANIC:new" :: [] =>
+          { model := "threads " ++ d ++ " " ++ p ++ " model-does-not-panic", spec := "FAIL:panic at construction;sig=C09/threads-panic", tags }
+        | "threads" :: d :: p :: n :: partFields =>
+          match decBool d, decNat p, decNat n with
+          | some debug, some pid, some cnt =>
+            match decParticipants cnt partFields with
+            | none => badCase "threads observation"
+            | some parts =>
+              if parts.length ≠ wanted.length then badCase "threads count" else
+              let judged := (parts.zip wanted).map (fun ((_, tid, opss), (wname, wmsg, wmdc)) =>
+                let env := envFor wname tid pid wmdc debug []
+                let r : Record := { c.record with message := wmsg }
+                let m := modelOpsIn env r c.pattern
+                let bad := opss.filterMap (judgeOpsIn env r ast)
+                (encOpt encStr wname ++ " " ++ toString tid ++ " " ++ " ".intercalate (opss.map (fun _ => m)), bad))
+              let model := "threads " ++ d ++ " " ++ p ++ " " ++ n ++ " " ++ " ".intercalate (judged.map (·.1))
+              let tids := parts.map (·.2.1)
+              let namesSeen := parts.map (·.1)
+              let spec :=
+                match nodebugClash isNodebug debug with
+                | some e => e
+                | none =>
+                  if tids.eraseDups.length ≠ tids.length then
+                    "FAIL:the simultaneously alive threads do not report pairwise distinct thread ids;sig=C09/harness-threads"
+                  else if namesSeen ≠ wanted.map (·.1) then
+                    "FAIL:the threads do not carry the names of the case;sig=C09/harness-threads"
+                  else match (judged.map (·.2)).flatten with
+                    | [] => "ok"
+                    | what :: _ =>
+                      "FAIL:an encode on one of several threads sharing the encoder does not show that thread's own environment (" ++
+                        what ++ ");sig=C09/thread-env-confused"
+              { model, spec, tags }
+          | _, _, _ => badCase "threads facts"
+        | _ => badCase "threads observation"
+      | _, _, _ => badCase "threads fields"
+    | _, _, _ => badCase "threads case"
+  | [] => badCase "arity"
+
+def decDate3 (s : String) : Option (List Char × Bool × List Char) :=
+  match splitOnChar ';' s with
+  | [f, u, t] => do pure ((← decStr f), (← decBool u), (← decStr t))
+  | _ => none
+
+/-- `tz-change` family: the local zone changes between two encodes of one encoder; each encode is judged against
+the date texts (offset-only formats) chrono gave the harness right after THAT encode -/
+def handleTz (isNodebug : Bool) (cas obs : List String) : Answer :=
+  match cas with
+  | astField :: rest =>
+    match decAst astField, C11.decCase (rest.take 9), rest.drop 9 with
+    | some ast, some c, [marker] =>
+      if showPats ast ≠ c.pattern then badCase "pattern is not the printed AST" else
+      if !C11.classifiable c.pattern then badCase "character outside the sample table" else
+      match splitOnChar ':' marker with
+      | ["tz", z1, z2, mode] =>
+        match decStr z1, decStr z2 with
+        | some _, some _ =>
+          let tags := familyTags ast "tz-change" isNodebug ++ [if mode = "s" then "tz-same-thread" else "tz-fresh-thread"]
+          match obs.flatMap (splitOnChar ' ') with
+          | ["tz", d, p, t1, o1, ops1, ds1, t2, o2, ops2, ds2] =>
+            match decBool d, decNat p, decNat t1, decNat t2,
+                  mapM? decDate3 (decList ',' ds1), mapM? decDate3 (decList ',' ds2) with
+            | some debug, some pid, some tid1, some tid2, some dates1, some dates2 =>
+              let env1 := envFor c.thread tid1 pid c.mdc debug dates1
+              let env2 := envFor c.thread tid2 pid c.mdc debug dates2
+              let head := "tz " ++ d ++ " " ++ p ++ " "
+              let model := head ++ t1 ++ " " ++ o1 ++ " " ++ modelOpsIn env1 c.record c.pattern ++ " " ++ ds1 ++ " " ++
+                t2 ++ " " ++ o2 ++ " " ++ modelOpsIn env2 c.record c.pattern ++ " " ++ ds2
+              let missing := (allDatesPats ast).any (fun fm =>
+                [dates1, dates2].any (fun ds => [false, true].any (fun u => !(ds.any (fun e => e.1 = fm && e.2.1 = u)))))
+              let spec :=
+                match nodebugClash isNodebug debug with
+                | some e => e
+                | none =>
+                  if o1 = o2 then
+                    "FAIL:the local offset did not change between the two encodes (zone change not applied);sig=C09/harness-tz-change"
+                  else if missing then
+                    "FAIL:a date format of the pattern has no fact;sig=C09/harness-tz-change"
+                  else match judgeOpsIn env1 c.record ast ops1, judgeOpsIn env2 c.record ast ops2 with
+                    | none, none => "ok"
+                    | some what, _ =>
+                      "FAIL:the first encode does not show the local offset in force at that encode (" ++ what ++ ");sig=C09/local-offset-stale"
+                    | none, some what =>
+                      "FAIL:the encode after the zone change does not show the local offset in force at that encode (" ++ what ++
+                        ");sig=C09/local-offset-stale"
+              { model, spec, tags }
+            | _, _, _, _, _, _ => badCase "tz facts"
+          | "tz" :: w :: _ =>
+            { model := "tz model-ran-to-the-end", spec := "FAIL:the child process of a zone-change case ended with " ++ w ++ ";sig=C09/tz-change-outcome", tags }
+          | _ => badCase "tz observation"
+        | _, _ => badCase "tz zones"
+      | _ => badCase "tz marker"
+    | _, _, _ => badCase "tz case"
+  | [] => badCase "arity"
+
+/-! ### ITEM 3 families (end) -/
+
 def handle : Handler := fun cas obs =>
+  -- ITEM 3 families: a trailing `@nodebug` routes the case to the build without debug assertions; the
+  -- `threads` and `tz-change` families carry their marker in the eleventh field
+  let isNodebug := cas.getLast? = some "@nodebug"
+  let cas := if isNodebug then cas.dropLast else cas
+  if cas.length = 14 && cas[10]? = some "threads" then handleThreads isNodebug cas obs else
+  if cas.length = 11 && ((cas[10]?).map (·.startsWith "tz:")).getD false then handleTz isNodebug cas obs else
   -- the fork family carries a marker field after the case and ` fork <pid> <tid> <ops>` after the
   -- parent's observation
   let isFork := cas.getLast? = some "fork"
@@ -228,20 +441,26 @@ def handle : Handler := fun cas obs =>
           if !C11.classifiable c.pattern then badCase "character outside the sample table" else
           let env := C11.envOf c f
           let model := C11.modelObs c f
-          let build := Build.current env
+          let build := C11.buildFor env
           let itemsRejected := (allDatesPats ast).any (fun fm => !build.dateOk fm)
-          let cls := classOf C11.profile.wordBits ast
+          let cls := classOf C11.profile ast
+          let (astOk, cut) := wantPrefix C11.profile ast
+          let depthTag :=
+            if cut then "depth>limit"
+            else if depthPats ast + 1 ≥ C11.profile.maxDepth then "depth-at-limit"
+            else "depth" ++ toString (min (depthOfL ast) 6)
           let bothZones := sameFormatBothZones ast
           let feats := (featuresOfL ast).eraseDups ++
             (if hasDoubledCloseInArgL false ast then ["doubled-close-paren-in-arg"] else []) ++
             (if bothZones then ["same-format-both-zones"] else []) ++
             (if isFork then ["fork"] else [])
-          let tags := cls :: ("depth" ++ toString (min (depthOfL ast) 6)) :: feats ++
-            (if f.masked then ["masked"] else []) ++
+          let tags := cls :: depthTag :: feats ++
+            (if hasEmptyMdcArgL ast then ["mdc-empty-arg"] else []) ++
             (if itemsRejected then ["date-format-rejected"] else []) ++
             (if feats.isEmpty then ["trivial"] else [])
           let sigOf (what : String) : String :=
-            if cls = "wf" then "C09/" ++ what else "C09/" ++ cls
+            if hasEmptyMdcArgL ast then "C09/mdc-empty-argument" else
+            if cls = "wf" then "C09/" ++ what else if cls = "too-deep" then "C09/" ++ what ++ "-beyond-nesting-limit" else "C09/" ++ cls
           let spec :=
             if f.tzOffset = 0 then
               "FAIL:the exec process runs with local zone = UTC (harness zone not applied);sig=C09/harness-local-zone-is-utc"
@@ -251,16 +470,25 @@ def handle : Handler := fun cas obs =>
             else if implOutcome = "ok" then
               match C11.implText implOps, C11.implStyles implOps with
               | some txt, some sty =>
-                let want := C11.maskDigits f.masked (denotePats env c.record ast)
-                if itemsRejected then "ok"   -- outside `DatesOk`: C11's territory
+                -- exact comparison (dates included: rendered by chrono at the instant of the encode)
+                let want := denotePats env c.record astOk ++ (if cut then errorMarker eExpectedClose else [])
+                if itemsRejected && !cut then
+                  -- outside `DatesOk`: the rejected formatter renders its marker, the rest as specified
+                  if txt ≠ denotePatsRej build env c.record ast then
+                    "FAIL:text differs from the pattern's meaning (a rejected date format renders its error marker, everything else as specified);sig=" ++ sigOf "meaning-date-rejected"
+                  else if sty ≠ stylesPats env c.record ast then "FAIL:style calls;sig=" ++ sigOf "styles"
+                  else "ok"
                 else if txt ≠ want then
                   -- each date formatter renders its own zone
                   if bothZones then "FAIL:text differs from the pattern's meaning (same format in both zones);sig=C09/date-zone-confused"
                   else "FAIL:text differs from the pattern's meaning;sig=" ++ sigOf "meaning"
-                else if sty ≠ stylesPats env c.record ast then "FAIL:style calls;sig=" ++ sigOf "styles"
+                else if sty ≠ stylesPats env c.record astOk then "FAIL:style calls;sig=" ++ sigOf "styles"
                 else "ok"
               | _, _ => "FAIL:unreadable operation stream;sig=C09/ops"
             else "FAIL:outcome " ++ implOutcome ++ ";sig=" ++ sigOf "outcome"
+          -- nodebug family: the debug-profile fact must be the one the case's routing asks for
+          let spec := (nodebugClash isNodebug f.debug).getD spec
+          let tags := tags ++ (if isNodebug then ["nodebug"] else [])
           if !isFork then { model, spec, tags } else
           -- the child's encode: same pattern, same record, the child's own pid
           match forkPart with
@@ -270,7 +498,7 @@ def handle : Handler := fun cas obs =>
               let fc : C11.Facts := { f with pid := cpid, tid := ctid }
               let envC := C11.envOf c fc
               let childModel :=
-                match encList envC c.record (compileL (Build.current envC) ((match parse C11.driverClass C11.profile c.pattern with | .ok ps => ps | _ => []))) with
+                match encList envC c.record (compileL (C11.buildFor envC) ((match parse C11.driverClass C11.profile c.pattern with | .ok ps => ps | _ => []))) with
                 | .ok o => C11.renderOps false o
                 | _ => "PANIC"
               let model := model ++ " fork " ++ cp ++ " " ++ ct ++ " " ++ childModel
